@@ -100,6 +100,12 @@ def gen_cases(fns, r, quick, only=None, first_id=0):
                         if f["bufs"] and quick and r.chance(2, 3): continue
                         p = dict(base); p[n1] = v1; p[n2] = v2
                         add(mk_case(f, DEPTH_ADDR[r.below(4)], p, r), "pair")
+        # 3b. every parameter at one of its two extremes at once: all tuples of {0x00, 0xFF}^n (n <= 8 parameters), the combinations
+        # a "default values" shortcut would test for
+        if 2 <= len(names) <= 8:
+            for bits in range(1 << len(names)):
+                p = {n: (0xFF if bits >> i & 1 else 0x00) for i, n in enumerate(names)}
+                add(mk_case(f, DEPTH_ADDR[bits % 4], p, r), "extremes")
         # 4. random tuples from the boundary set / uniformly
         for _ in range(60 if quick else 10000):
             p = {n: (r.choice(BOUNDARY) if r.chance(2, 3) else r.below(256)) for n in names}
